@@ -43,7 +43,7 @@ func (r *round1) Start() *Error {
 	idList := make([]string, 0)
 	for id, msg := range r.futureMessages {
 		idList = append(idList, id)
-		if err := r.Update(msg); err != nil {
+		if err := r.replay(msg); err != nil {
 			return err
 		}
 	}
@@ -55,6 +55,19 @@ func (r *round1) Start() *Error {
 
 	r.started = true
 	return nil
+}
+
+// replay feeds a stored message to Update. A malformed message that makes Update panic is
+// dropped on its own, so that it cannot abort the replay of the other stored messages.
+func (r *round1) replay(msg model.ConsensusMessage) (err *Error) {
+	defer func() {
+		if rec := recover(); rec != nil {
+			r.logger.Errorf("round1 drop stored msg: %s, recover: %v", msg.GetMessageID(), rec)
+			err = nil
+		}
+	}()
+
+	return r.Update(msg)
 }
 
 func (r *round1) Close() {
